@@ -676,19 +676,27 @@ def run(tier="quick", seed=0):
                   "intervals_per_set": "0..3 exhaustive, 4..10 sampled", "merge_distance": "0..S", "strands": "+,-",
                   "fragment_length": "0..S+2", "clip_coordinates": "-2..S+2", "contigs": "1..3 (sort), 1..2 (others)",
                   "samples": 150 if quick else 2500}
-    # cumulative share of the wall-clock budget by which a section has to be finished (cheap, pointwise sections first)
-    section_budget = {"clip": 0.05, "extend": 0.08, "geometry": 0.16, "merge": 0.28, "pairs": 0.40, "global_intersect": 0.44,
-                      "coverage": 0.62, "sort": 0.74, "unique_intersect": 0.84, "similarity": 0.96, "sampled": 1.0}
+    # wall-clock allotment (seconds) of each section, counted from the section's own start, so that a slow section
+    # (slow machine, or a fault that makes every call raise) cannot starve the later ones.  Typical use is about
+    # half of it (quick ~35 s, thorough ~6 min); the sum is the worst case.
+    if quick:
+        allot = {"clip": 2, "extend": 2, "geometry": 4, "merge": 6, "pairs": 6, "global_intersect": 2, "coverage": 11, "sort": 9,
+                 "unique_intersect": 9, "similarity": 12, "sampled": 4}
+    else:
+        allot = {"clip": 5, "extend": 8, "geometry": 25, "merge": 15, "pairs": 30, "global_intersect": 25, "coverage": 55, "sort": 105,
+                 "unique_intersect": 105, "similarity": 170, "sampled": 57}
     import time
-    total = 55.0 if quick else 560.0
-    skipped = set()
+    started = {}
+    cut = set()
     for section, case in gen_cases(tier, col.rng):
-        if time.time() - col.t0 > total * section_budget[section]:
-            # the section has used up its share: the rest of it is left out (recorded, exhaustive=False)
-            if section not in skipped:
-                skipped.add(section)
-                col.exhaustive = False
-                col.bounds.setdefault("sections_cut_short_by_time", []).append(section)
+        t = time.time()
+        if section in cut:
+            continue
+        if t - started.setdefault(section, t) > allot[section] or col.out_of_time():
+            # the section has used up its allotment: the rest of it is left out (recorded, exhaustive=False)
+            cut.add(section)
+            col.exhaustive = False
+            col.bounds.setdefault("sections_cut_short_by_time", []).append(section)
             continue
         col.guarded(lambda: evaluate(col, case), "enumerator:" + case["op"], case)
     return col.result()
